@@ -56,7 +56,7 @@ Section T.
     step s (SWriteA b) = Some s' ->
     exists i, spc_ s = SWrite i /\ b = frame (item_text i) /\ g_wire s' = g_wire s ++ [(now s, i)].
   Proof.
-    unfold Conn.step. destruct (spc_ s) as [| | | | |i| | | | |] eqn:E; try discriminate.
+    unfold Conn.step. destruct (spc_ s) as [| | | | | |i| | | | |] eqn:E; try discriminate.
     destruct (teqb b (frame (item_text i))) eqn:F; [|discriminate].
     intros [= <-]. exists i. apply teqb_eq in F. repeat split; assumption.
   Qed.
